@@ -541,7 +541,9 @@ _wstring_literal = "L" + _string_literal
 _u8string_literal = "u8" + _string_literal
 _u16string_literal = "u" + _string_literal
 _u32string_literal = "U" + _string_literal
-_bad_string_literal = '"' + _string_char + "*" + _bad_escape + _string_char + '*"'
+_bad_string_literal = (
+    '"' + _string_char + "*" + _bad_escape + "(" + _string_char + "|" + _bad_escape + ')*"'
+)
 
 # floating constants (K&R2: A.2.5.3)
 _exponent_part = r"""([eE][-+]?[0-9]+)"""
